@@ -310,6 +310,7 @@ def one(rep, prog, cfg):
 def field_of_self(body, local, depth=8):
     """If `local` is (a wrapper around) a move/copy/take of a field of `self` (_1, by value or by
     reference): the field's name."""
+    inner = None
     for _ in range(depth):
         defs = [s for bb, i, s in body.stmts() if s["k"] == "assign" and s["place"]["l"] == local and not s["place"]["p"]]
         cdefs = [t for bb, t in body.calls() if t["dest"]["l"] == local and not t["dest"]["p"]]
@@ -330,11 +331,16 @@ def field_of_self(body, local, depth=8):
             p = op_place(rv["op"]) if rv["k"] == "use" else rv["place"]
             if p is None:
                 return None
+            fs = [e["n"] for e in p["p"] if isinstance(e, dict) and "f" in e and e.get("n") is not None]
             if p["l"] == 1:
-                fs = [e["n"] for e in p["p"] if isinstance(e, dict) and "f" in e]
-                return fs[0] if len(fs) == 1 else None
-            if p["p"] not in ([], ["*"]):
+                # the innermost named field on the way from self (`self.queue.position` -> position: a group of attributes held
+                # in a private sub-struct is still those attributes)
+                chain = fs + ([inner] if inner else [])
+                return chain[-1] if chain else None
+            if any(e != "*" and not (isinstance(e, dict) and "f" in e) for e in p["p"]):
                 return None
+            if fs and inner is None:
+                inner = fs[-1]
             local = p["l"]
         elif rv["k"] == "agg" and len(rv["ops"]) == 1 and rv["agg"] == "adt" and rv["adt_name"].endswith(("SongPosition", "SongId")):
             l2 = op_local(rv["ops"][0])
